@@ -575,6 +575,8 @@ func runC07(r *Run) {
 		}
 	})
 	checkShared(r)
+	checkStickyDefault(r)
+	checkBigAlias(r)
 	dl := roots["deliver"]
 	allInstrs(dl, func(ins ssa.Instruction) {
 		c, ok := ins.(*ssa.Call)
